@@ -102,6 +102,23 @@ def judge(ctx, op, src, out, fmap, norm, cond, shift, detail):
                           '%s: a joint that coincided exactly no longer coincides' % op,
                           dict(detail, index=i, a_end=repr(out[i].end), b_start=repr(out[j].start)))
             return False
+    # ... and the path object itself agrees with its segments: its end points are those of its first and last
+    # segment, and a closed path is still closed
+    try:
+        st, en, was_closed = out.start, out.end, src.isclosed()
+        now_closed = out.isclosed()
+    except Exception as e:
+        ctx.violation('%s/Path/endpoints-raise' % op, 'start/end/isclosed() of the result raised %s' % type(e).__name__, detail)
+        return False
+    if not (st == out[0].start and en == out[-1].end):
+        ctx.violation('%s/Path/stale-endpoints' % op, '%s: result.start/.end differ from the first/last segment\'s end points' % op,
+                      dict(detail, start=repr(st), end=repr(en), seg_start=repr(out[0].start), seg_end=repr(out[-1].end)))
+        return False
+    if was_closed:
+        ctx.branch('closed-path')
+        if not now_closed:
+            ctx.violation('%s/Path/closed-opened' % op, '%s: a closed path is no longer closed' % op, detail)
+            return False
     return True
 
 
